@@ -71,6 +71,13 @@ func (s *Spec) GenValue(t *Type, r *HashRng, leafPath string, sink FileSink, dep
 	case KFloat:
 		return float64(r.Intn(1<<20)) / 64
 	case KString:
+		if s.PathInStringPct > 0 && sink != nil && r.Pct(s.PathInStringPct) {
+			// a string that names a file the stage wrote (a path carried in a
+			// plain string output, as stage code commonly does)
+			if v, ok := sink(leafPath, TFile, r).(string); ok && v != "" {
+				return v
+			}
+		}
 		return "v-" + r.Hex(10)
 	case KBool:
 		v := r.Pct(50)
